@@ -15,6 +15,10 @@ Stream B (end to end, real CLI in a temp project outside /verif and /repo): targ
   each with functions, a lambda, a class with __init__, a class with a static method and one caller per
   callable; all subsets (thorough: exhaustive per file and marking kind; quick: seeded sample) of callables marked
   @rattr_ignore / excluded with -x / annotated @rattr_results(...) with distinctive declared names.
+Streams U and M (props/c11subst.py): "callers inline … with normal argument substitution" on inputs where the ORDER of
+  the substitution matters — the call's argument names are permutations of / overlap with the annotated callee's own
+  parameter names (unit level against the Lean model `Ann.inlineDeclared`, whole projects against both Lean pipeline models,
+  in-process and through the CLI); oracle = CPython's binding, applied simultaneously.
 """
 from __future__ import annotations
 
@@ -1223,8 +1227,12 @@ def run(tier, seed, build):
                 "through the real CLI, subsets of 10 markable callables per marking kind + mixed assignments; every annotated target callable declares "
                 "calls in 10 forms (local function, `lib.f`, `lb.f` through an alias, from-import by keyword, local / from-imported / module-member "
                 "static method and class constructor) into the followed import, each callee with its own distinctive attribute that must show up, "
-                "substituted, in the annotated entry and in its caller. non-trivial = distinct "
-                "accepted identifier (N), distinct decorator text that is not the empty well-formed annotation (A), distinct (kind, decorators, "
+                "substituted, in the annotated entry and in its caller; U / M (props/c11subst.py): annotated callables over all parameter kinds "
+                "with declared gets / sets / dels on several parameters and declared calls (to plain, annotated and nested helpers, same file and "
+                "across the import boundary) whose arguments are parameters, called with arguments that are permutations of / overlap with the "
+                "callee's OWN parameter names, by position and by keyword, directly and through a plain intermediate, same file / from-import / "
+                "module-import, in-process and through the CLI; oracle = CPython's binding applied simultaneously. non-trivial = distinct "
+                "accepted identifier (N), distinct generated case / project (U, M), distinct decorator text that is not the empty well-formed annotation (A), distinct (kind, decorators, "
                 "verdicts) (D), distinct non-empty assignment (B)")
     rng = random.Random(seed)
     model = common.Model()
@@ -1232,6 +1240,10 @@ def run(tier, seed, build):
     stream_annotations(res, rng, model, tier)
     stream_decisions(res, rng, model, tier)
     stream_cli(res, rng, tier)
+    from props import c11subst
+    c11subst.unit_stage(res, random.Random(seed + 1101), 400 if tier == "quick" else 4000, model)
+    c11subst.module_stage(res, random.Random(seed + 1102), 12 if tier == "quick" else 150, model,
+                          cli_sample=3 if tier == "quick" else 12)
     res.assumptions = [
         "[interp] gets=None / sets=None / dels=None / calls=None: the decorator's own signature (rattr/analyser/annotations.py) makes None the "
         "default of every keyword, the analyser-side parser demands set[Identifier]; the Lean spec counts None as ill-formed (fatal expected and "
@@ -1254,6 +1266,9 @@ def replay(path):
     print(json.dumps({k: j[k] for k in j if k not in ("results",)}, indent=1)[:6000])
     case = j.get("case", {})
     warnings.simplefilter("ignore")
+    if case.get("stage") in ("module", "declared-unbind"):
+        from props import c11subst
+        return c11subst.replay_case(j)
     if "decorator" in case:
         impl.reset_config(target=vl.TARGET)
         tree, ctx = vl.prepare(CTX_SRC)
